@@ -212,8 +212,8 @@ def parseRR (t : String) : Option RR :=
   | ["N", h] => (fromHex h).map RR.null
   | ["P", h] => (fromHex h).map RR.priv
   | ["T", h] => if h = "" then some (.txt []) else ((h.splitOn ",").mapM fromHex).map RR.txt
-  | ["M", p, h] => do pure (.mx (← p.toNat?) (← fromHex h))
-  | ["S", p, h] => do pure (.srv (← p.toNat?) (← fromHex h))
+  | ["M", p, h] => do pure (.mx ((← p.toNat?) % 65536) (← fromHex h))   -- dns.MX.Preference is a uint16
+  | ["S", p, h] => do pure (.srv ((← p.toNat?) % 65536) (← fromHex h))  -- dns.SRV.Priority is a uint16
   | ["C", h] => (fromHex h).map RR.cname
   | ["Q", h] => (fromHex h).map RR.aaaa
   | ["A", h] => (fromHex h).map RR.a
